@@ -19,7 +19,7 @@ def call(name, *args):
 
 def ev(fx, rep, rule, key, path, opaque=()):
     rep.fn(path)
-    sy = S.Sym(fx, opaque=lambda q: q in opaque)
+    sy = S.Sym(fx, opaque=lambda q: q in opaque, inline_mut=True)
     try:
         return sy, sy.eval_body(fx.bodies[path])
     except S.Undecidable as e:
@@ -145,6 +145,18 @@ def check_class_lookup(fx, rep, rule):
                       "class remapped through remap_class, message passed through; None iff the class is unknown")
 
 
+def split_first_form(t):
+    """`let (first, rest) = entries.split_first()?; rest.iter().all(..)` names the same things as
+    `let mut it = entries.iter(); let first = it.next()?; it.all(..)`: first element / the remaining ones (bottom-up rewriting)"""
+    if t[0] == "call" and t[1] == "core::slice::split_first" and len(t[2]) == 1:
+        return R.NEXT
+    if t[0] == "field" and t[1] == R.ELEM and t[2] == "0":
+        return R.ELEM
+    if t[0] == "call" and t[1] == "core::slice::iter" and t[2] == (("field", R.ELEM, "1"),):
+        return ("rest",)
+    return None
+
+
 def check_remap_method(fx, rep, rule):
     """C04.3 / C02.6: all-entries-agree rule in both implementations"""
     # mapper
@@ -165,6 +177,9 @@ def check_remap_method(fx, rep, rule):
                     return r
                 if t[0] == "after" or t[0] == "exhausted":
                     return ("rest",)
+                r = split_first_form(t)
+                if r is not None:
+                    return r
                 return None
 
             def ref(o):
@@ -205,6 +220,9 @@ def check_remap_method(fx, rep, rule):
                     return ("range", t[2][0])
                 if t[0] in ("after", "exhausted"):
                     return ("rest",)
+                r = split_first_form(t)
+                if r is not None:
+                    return r
                 return None
             rng = ("range", mk_payload(ms, "Some", "0"))
             first = R.ELEM
